@@ -27,6 +27,10 @@ type Thread struct {
 	done   bool
 	idle   bool // parked in an idle wait (pool worker waiting for a task): not counted as unfinished work
 	gid    uint64
+	// channel receive this thread is (about to be) blocked in, for direct hand-off by a sender
+	waitOps  []Op
+	assigned uintptr // channel a sender handed a value to this blocked receiver on (0: none)
+	parkSeq  int64
 }
 
 // PointRec describes one point where more than one alternative existed.
@@ -107,6 +111,8 @@ func RunWith(cfg Config, body func(), onFinish func()) *Sched {
 		f()
 	}
 	execSeq++
+	resetChans()
+	parkSeq = 0
 	s := &Sched{ctl: make(chan struct{}), choose: cfg.Choose, MaxSteps: cfg.MaxSteps, tracing: cfg.Trace, Fine: cfg.Fine, OnFinish: onFinish}
 	if s.MaxSteps == 0 {
 		s.MaxSteps = 20000
@@ -425,18 +431,81 @@ type Op struct {
 func R(ch any) Op  { return Op{reflect.ValueOf(ch), false} }
 func S_(ch any) Op { return Op{reflect.ValueOf(ch), true} }
 
-func ready(op Op) bool {
+// Channels made by instrumented code (MakeChan) have a LOGICAL capacity and some physical slack. Go hands a sent
+// value directly to a receiver that is already blocked on the channel, whatever the buffer holds; the threads of
+// this scheduler are parked outside the runtime's channel queues, so the hand-off is modelled here: a send is
+// possible when the logical buffer has room OR a receiver is blocked on the channel; in the second case the value
+// is reserved for that receiver (FIFO by blocking order) and physically travels through the slack.
+type chanInfo struct {
+	lcap     int
+	reserved int
+	perm     bool
+}
+
+const chanSlack = 64
+
+var chans = map[uintptr]*chanInfo{}
+var chansRegistered bool
+
+// MakeChan replaces make(chan T[, n]) in instrumented code.
+func MakeChan[T any](n ...int) chan T {
+	c := 0
+	if len(n) > 0 {
+		c = n[0]
+	}
+	ch := make(chan T, c+chanSlack)
+	chans[reflect.ValueOf(ch).Pointer()] = &chanInfo{lcap: c, perm: S == nil || execSeq <= 1}
+	if !chansRegistered {
+		chansRegistered = true
+	}
+	return ch
+}
+
+// resetChans forgets the channels of the previous execution (those made outside executions or during the warm-up
+// execution may be long-lived globals and are kept).
+func resetChans() {
+	for k, ci := range chans {
+		if !ci.perm {
+			delete(chans, k)
+		} else {
+			ci.reserved = 0
+		}
+	}
+}
+
+func chanKey(op Op) uintptr { return op.ch.Pointer() }
+
+func info(op Op) *chanInfo {
+	if !op.ch.IsValid() || op.ch.IsNil() {
+		return nil
+	}
+	return chans[chanKey(op)]
+}
+
+// readyShallow: readiness by buffer state only (no hand-off): used to decide whether another thread is blocked.
+func readyShallow(t *Thread, op Op) bool {
 	if !op.ch.IsValid() || op.ch.IsNil() {
 		return false
 	}
+	ci := info(op)
+	res := 0
+	if ci != nil {
+		res = ci.reserved
+	}
 	if op.send {
-		if op.ch.Cap() == 0 {
-			panic("vsched: send on a rendezvous channel is not modelled")
+		if ci == nil {
+			return op.ch.Len() < op.ch.Cap()
 		}
-		return op.ch.Len() < op.ch.Cap()
+		return op.ch.Len()-res < ci.lcap
+	}
+	if t != nil && t.assigned != 0 && t.assigned == chanKey(op) {
+		return true
+	}
+	if op.ch.Len()-res > 0 {
+		return true
 	}
 	if op.ch.Len() > 0 {
-		return true
+		return false // everything in the buffer is reserved for earlier blocked receivers
 	}
 	if op.ch.Type().ChanDir()&reflect.RecvDir == 0 {
 		return false
@@ -452,19 +521,118 @@ func ready(op Op) bool {
 	return false
 }
 
-func anyReady(ops []Op) bool {
+// blockedReceiver returns the longest-blocked thread (other than t) that is blocked in a receive on the channel.
+func blockedReceiver(t *Thread, key uintptr) *Thread {
+	if S == nil {
+		return nil
+	}
+	var best *Thread
+	for _, u := range S.threads {
+		if u == t || u.done || u.assigned != 0 || u.guard == nil || len(u.waitOps) == 0 {
+			continue
+		}
+		waits := false
+		for _, o := range u.waitOps {
+			if !o.send && o.ch.IsValid() && !o.ch.IsNil() && o.ch.Pointer() == key {
+				waits = true
+			}
+		}
+		if !waits {
+			continue
+		}
+		blocked := true
+		for _, o := range u.waitOps {
+			if readyShallow(u, o) {
+				blocked = false
+			}
+		}
+		if blocked && (best == nil || u.parkSeq < best.parkSeq) {
+			best = u
+		}
+	}
+	return best
+}
+
+func ready(op Op) bool {
+	var t *Thread
+	if S != nil {
+		t = S.cur
+	}
+	return readyFor(t, op)
+}
+
+func readyFor(t *Thread, op Op) bool {
+	if !op.ch.IsValid() || op.ch.IsNil() {
+		return false
+	}
+	if readyShallow(t, op) {
+		return true
+	}
+	if op.send {
+		ci := info(op)
+		if ci == nil {
+			if op.ch.Cap() == 0 {
+				panic("vsched: send on a rendezvous channel that was not made by instrumented code is not modelled")
+			}
+			return false
+		}
+		return blockedReceiver(t, chanKey(op)) != nil
+	}
+	return false
+}
+
+func anyReadyFor(t *Thread, ops []Op) bool {
 	for _, op := range ops {
-		if ready(op) {
+		if readyFor(t, op) {
 			return true
 		}
 	}
 	return false
 }
 
-func pick(ops []Op, what string) int {
+// commit does the book-keeping of the operation thread t is about to perform for real.
+func commit(t *Thread, op Op) {
+	ci := info(op)
+	if ci == nil {
+		return
+	}
+	key := chanKey(op)
+	if op.send {
+		if op.ch.Len()-ci.reserved < ci.lcap {
+			if u := blockedReceiver(t, key); u == nil {
+				return // plain buffered send
+			}
+		}
+		u := blockedReceiver(t, key)
+		if u == nil {
+			panic("vsched: send committed with neither buffer space nor a blocked receiver")
+		}
+		if op.ch.Len() >= op.ch.Cap() {
+			panic("vsched: channel slack exhausted (more hand-offs pending than chanSlack)")
+		}
+		u.assigned = key
+		ci.reserved++
+		return
+	}
+	if t != nil && t.assigned == key {
+		t.assigned = 0
+		ci.reserved--
+	}
+}
+
+func pickFor(t *Thread, ops []Op, what string) int {
+	// a receiver that was handed a value takes exactly that case
+	if t != nil && t.assigned != 0 {
+		for i, op := range ops {
+			if !op.send && op.ch.IsValid() && !op.ch.IsNil() && chanKey(op) == t.assigned {
+				commit(t, op)
+				return i
+			}
+		}
+	}
 	var rd []int
 	for i, op := range ops {
-		if ready(op) {
+		if readyFor(t, op) {
 			rd = append(rd, i)
 		}
 	}
@@ -474,11 +642,13 @@ func pick(ops []Op, what string) int {
 		}
 		panic("vsched: select resumed with nothing ready")
 	}
-	if len(rd) == 1 {
-		return rd[0]
+	i := rd[0]
+	if len(rd) > 1 {
+		// Go picks uniformly among ready cases: an explorable environment choice
+		i = rd[Choose(len(rd), what)]
 	}
-	// Go picks uniformly among ready cases: an explorable environment choice
-	return rd[Choose(len(rd), what)]
+	commit(t, ops[i])
+	return i
 }
 
 // Select blocks until a case is ready and returns its index; the choice among ready cases is explorable.
@@ -491,55 +661,73 @@ func sel(decision bool, ops []Op) int {
 	if !On() {
 		for {
 			for i, op := range ops {
-				if ready(op) {
+				if readyFor(nil, op) {
 					return i
 				}
 			}
 			runtime.Gosched()
 		}
 	}
-	Wait(decision, "select", func() bool { return anyReady(ops) })
-	return pick(ops, "select-case")
+	t := S.cur
+	park(t, ops)
+	Wait(decision, "select", func() bool { return anyReadyFor(t, ops) })
+	t.waitOps = nil
+	return pickFor(t, ops, "select-case")
+}
+
+var parkSeq int64
+
+func park(t *Thread, ops []Op) {
+	parkSeq++
+	t.parkSeq = parkSeq
+	t.waitOps = ops
 }
 
 // SelectDefault returns the index of a ready case or -1 (select with default).
 func SelectDefault(ops ...Op) int {
 	if !On() {
 		for i, op := range ops {
-			if ready(op) {
+			if readyFor(nil, op) {
 				return i
 			}
 		}
 		return -1
 	}
-	if !anyReady(ops) {
+	t := S.cur
+	if !anyReadyFor(t, ops) {
 		return -1
 	}
-	return pick(ops, "select-default-case")
+	return pickFor(t, ops, "select-default-case")
 }
 
 func SelectDefaultQ(ops ...Op) int { return SelectDefault(ops...) }
 
+func recvWait(decision bool, what string, ch any) {
+	op := R(ch)
+	t := S.cur
+	park(t, []Op{op})
+	Wait(decision, what, func() bool { return readyFor(t, op) })
+	t.waitOps = nil
+	commit(t, op)
+}
+
 func Recv[T any](ch <-chan T) T {
 	if On() {
-		op := R(ch)
-		Wait(true, "recv", func() bool { return ready(op) })
+		recvWait(true, "recv", ch)
 	}
 	return <-ch
 }
 
 func RecvQ[T any](ch <-chan T) T {
 	if On() {
-		op := R(ch)
-		Wait(false, "recv", func() bool { return ready(op) })
+		recvWait(false, "recv", ch)
 	}
 	return <-ch
 }
 
 func Recv2[T any](ch <-chan T) (T, bool) {
 	if On() {
-		op := R(ch)
-		Wait(true, "recv", func() bool { return ready(op) })
+		recvWait(true, "recv", ch)
 	}
 	v, ok := <-ch
 	return v, ok
@@ -549,10 +737,9 @@ func Recv2[T any](ch <-chan T) (T, bool) {
 // deadlock and not unfinished work.
 func Recv2Idle[T any](ch <-chan T) (T, bool) {
 	if On() {
-		op := R(ch)
 		t := S.cur
 		t.idle = true
-		Wait(false, "idle", func() bool { return ready(op) })
+		recvWait(false, "idle", ch)
 		t.idle = false
 	}
 	v, ok := <-ch
@@ -561,25 +748,29 @@ func Recv2Idle[T any](ch <-chan T) (T, bool) {
 
 func Recv2Q[T any](ch <-chan T) (T, bool) {
 	if On() {
-		op := R(ch)
-		Wait(false, "recv", func() bool { return ready(op) })
+		recvWait(false, "recv", ch)
 	}
 	v, ok := <-ch
 	return v, ok
 }
 
+func sendWait(decision bool, ch any) {
+	op := Op{reflect.ValueOf(ch), true}
+	t := S.cur
+	Wait(decision, "send", func() bool { return readyFor(t, op) })
+	commit(t, op)
+}
+
 func Send[T any](ch chan<- T, v T) {
 	if On() {
-		op := Op{reflect.ValueOf(ch), true}
-		Wait(true, "send", func() bool { return ready(op) })
+		sendWait(true, ch)
 	}
 	ch <- v
 }
 
 func SendQ[T any](ch chan<- T, v T) {
 	if On() {
-		op := Op{reflect.ValueOf(ch), true}
-		Wait(false, "send", func() bool { return ready(op) })
+		sendWait(false, ch)
 	}
 	ch <- v
 }
